@@ -38,6 +38,7 @@ package object
 //@ func getParentNonPayloadFieldBounds
 //@   sweep
 //@   requires [header_range_inside_buffer] 0 <= hdrFrom && hdrFrom <= hdrTo && hdrTo <= len(buf)
-//@   loop 1 invariant 0 <= off && off < len(buf) && len(buf) <= old(len(buf))
+//@   loop 1 invariant 0 <= off && off < len(buf) && len(buf) <= old(len(buf)) && len(buf) <= hdrTo
 //@   loop 1 invariant 0 <= idf.From && idf.To <= len(buf) && 0 <= sigf.From && sigf.To <= len(buf)
 //@   ensures [bounds_inside_buffer] err == nil ==> 0 <= res0.From && res0.To <= old(len(buf)) && 0 <= res1.From && res1.To <= old(len(buf)) && 0 <= res2.From && res2.To <= old(len(buf))
+//@   ensures [parent_fields_lie_inside_the_objects_header] err == nil ==> res0.To <= hdrTo && res1.To <= hdrTo && res2.To <= hdrTo
